@@ -240,7 +240,7 @@ def check(prop, cfg, tier, seed, repo, work, t0, replay_in):
     shards = sorted(glob.glob(os.path.join(cdir, "cases_*.v")))
 
     def do_shard(v):
-        rc, out = coqc(work, v, timeout=1500)
+        rc, out = coqc(work, v, timeout=600)
         return v, rc, out
     results = []
     with ThreadPoolExecutor(max_workers=16) as ex:
